@@ -21,6 +21,7 @@ def run(prog, tier):
     CR.header_reader_rule(prog, res, int_scale_ok=so)
     CR.parameters_reader_rule(prog, res)
     CR.group_reader_rule(prog, res)
+    CR.reader_effects_rule(prog, res)
     CR.parameter_reader_rule(prog, res)
     CR.data_offset_rule(prog, res)
     CR.frame_reader_rule(prog, res)
